@@ -37,6 +37,12 @@ ETYPES = [".".join(w) for n in (1, 2, 3) for w in itertools.product(WORDS, repea
 PARTIALS = [".".join(w) + ".*" for n in (1, 2) for w in itertools.product(WORDS, repeat=n)]
 KEYS = ETYPES + PARTIALS + ["*"]
 VARIANTS = ["plain", "gT", "gF", "null"]
+# guards sharing one NAME but not one verdict: parameterised predicates and composites
+XVARIANTS = VARIANTS + ["pT", "pF", "nT", "nF"]
+XGUARD = {"gT": "gT", "gF": "gF", "pT": {"type": "gp", "params": {"v": True}},
+          "pF": {"type": "gp", "params": {"v": False}}, "nT": {"type": "not", "children": ["gF"]},
+          "nF": {"type": "not", "children": ["gT"]}}
+PASSES = ("plain", "gT", "pT", "nT")
 NCHUNKS = 16
 
 
@@ -64,10 +70,8 @@ def build(levels):
                 on[key] = None
             else:
                 d = {"actions": [f"mk|{li}|{key}"]}
-                if var == "gT":
-                    d["guard"] = "gT"
-                elif var == "gF":
-                    d["guard"] = "gF"
+                if var in XGUARD:
+                    d["guard"] = XGUARD[var]
                 on[key] = d
         return on
 
@@ -87,7 +91,7 @@ def expected(levels, etype):
             var = d[k]
             if var == "null":
                 return None
-            if var in ("plain", "gT"):
+            if var in PASSES:
                 return f"mk|{li}|{k}"
     return None
 
@@ -110,7 +114,8 @@ class _Names(dict):
 def deliver_all(levels, res: Result, engine="sync", extra_events=()):
     fired = []
     logic = MachineLogic(actions=_Names(fired),
-                         guards={"gT": lambda c, e: True, "gF": lambda c, e: False})
+                         guards={"gT": lambda c, e: True, "gF": lambda c, e: False,
+                                 "gp": lambda c, e, params: bool(params["v"])})
     machine = create_machine(build(levels), logic=logic)
     results = {}
     evs = list(ETYPES) + list(extra_events)
@@ -373,6 +378,25 @@ def run_chunk(spec):
         levels = [x, y, z]
         judge(levels, deliver_all(levels, res, "sync"), res, "sync")
         res.count("configs.three-level")
+    # Part 4: sampled sets over the extended variants (same-named guards with different verdicts)
+    import random
+    xr = random.Random("C20x|%s|%d" % (spec["seed"], ci))
+    nx = 600 if tier == "quick" else 12000
+    for i in range(nx):
+        if i % 500 == 0:
+            wd.arm("X:%d" % i)
+        levels = []
+        for li in range(3):
+            size = xr.choice((0, 1, 2, 2, 3)) if li < 2 else xr.choice((0, 0, 1))
+            ks = xr.sample(KEYS, size)
+            levels.append(tuple((k, xr.choice(XVARIANTS)) for k in sorted(ks, key=KEYS.index)))
+        eng = "async" if i % 25 == 0 else "sync"
+        judge(levels, deliver_all(levels, res, eng), res, eng)
+        res.count("configs.sampled-extended-guards")
+        for lv in levels:
+            vs = [v for _, v in lv]
+            if ("pT" in vs and "pF" in vs) or ("nT" in vs and "nF" in vs):
+                res.count("configs.same-guard-name-different-verdict-in-one-state")
     wd.arm("internal")
     if ci == 0:
         internal_cases(res)
@@ -384,6 +408,7 @@ def run_chunk(spec):
 def quota(counters, tier):
     out = []
     for k in ("configs.one-level", "configs.two-level", "configs.three-level",
+              "configs.sampled-extended-guards", "configs.same-guard-name-different-verdict-in-one-state",
               "deliveries.multi-match", "internal.sync.after", "internal.async.after",
               "internal.sync.done.state", "internal.async.done.invoke",
               "internal.sync.error.platform", "internal.async.xstate.error.actor"):
